@@ -477,7 +477,10 @@ class G:
             dsc.vars = list(sc.vars) + [(p, "str") for p in dinfo["req"]]
             dsc.foreign = {v for v, _ in sc.vars}
             dsc.defs = dict(sc.defs)
-            defs.append({"t": "def", "name": dn, "sig": ", ".join(dinfo["req"]), "body": self.body(dsc, depth + 1, minlen=1, allow_empty=False)})
+            dnode = {"t": "def", "name": dn, "sig": ", ".join(dinfo["req"]), "body": self.body(dsc, depth + 1, minlen=1, allow_empty=False)}
+            if "decorator" in self.f and self.chance(30):
+                dnode["decorator"] = self.pick(["deco", "deco2"])  # still reachable as caller.<name>
+            defs.append(dnode)
         body = self.body(bsc, depth + 1, minlen=1, allow_empty=False)
         spelling = "call"
         if info.get("top") and self.chance(50) and not info["star"]:
